@@ -136,6 +136,36 @@ def run(chk):
         qs[min(520, nq - 2)] = ref[0]    # duplicates on both sides of a block boundary
         qs[8] = ref[0]
         add_symdel(f"many-queries-{nq}", ref, qs, rng.choice([1, 2]), model=False)
+    # very large collections on both sides (position products beyond 2^31): planted query/reference hits at late positions
+    def large_lookup(n):
+        from Levenshtein import distance as levd
+        ref, _pairs = gen.planted(rng, n, n_pairs=0) if False else (["".join(rng.choice(AA) for _ in range(12)) for _ in range(n)], [])
+        qs = ["".join(rng.choice(AA) for _ in range(12)) for _ in range(n)]
+        want = set()
+        for _ in range(12):
+            q, r = rng.randrange(n - 300, n), rng.randrange(n - 300, n)
+            kpos = rng.randrange(12)
+            qs[q] = ref[r][:kpos] + rng.choice([a for a in AA if a != ref[r][kpos]]) + ref[r][kpos + 1:]
+        for q in range(n - 300, n):
+            for r in range(n - 300, n):
+                d = levd(qs[q], ref[r])
+                if d <= 1:
+                    want.add((q, r, d))
+        for name, fn in (("symdel2", lambda: nn.symdel(ref, max_edits=1, seqs2=qs)), ("SymdelDB.lookup", lambda: nn.SymdelDB(ref, 1).lookup(qs))):
+            rr = core.call_real(lambda: [(int(a), int(b_), int(d)) for a, b_, d in fn()])
+            chk.case(nontrivial_key=("large", name, n))
+            chk.count("large-lookup")
+            if rr[0] != "ok":
+                chk.violation(f"C03|{name}|large|raises-{rr[1]}", f"{name} raised {rr[1]} on {n} x {n} sequences", {"n": n})
+                continue
+            bad = [t for t in rr[1] if not (0 <= t[0] < n and 0 <= t[1] < n and levd(qs[t[0]], ref[t[1]]) == t[2] <= 1)]
+            missing = sorted(want - set(rr[1]))
+            if bad or missing or len(set(rr[1])) != len(rr[1]):
+                ex = (bad or missing or [None])[0]
+                chk.violation(f"C03|{name}|large|{'spurious' if bad else ('missing' if missing else 'repeated')}",
+                              f"{name} on {n} queries x {n} references: {len(bad)} reported triplets are not true hits, {len(missing)} planted hits "
+                              f"are missing; e.g. {ex}", {"n": n, "example": ex})
+    large_lookup(50021 if not thorough else 70001)
     # all strings of a pool against themselves
     for alpha, pool in pools:
         add_symdel(f"E({alpha})-all", list(pool), list(pool), 2, model=len(pool) <= 45)
